@@ -1,6 +1,6 @@
 """C11 — handler errors are isolated."""
 from .. import scenlib as S
-from ._common import flat, mk, t_tree
+from ._common import flat, matrix_jobs, mk, t_tree
 
 META = dict(
     explanation='A raising handler (sync / async, before or after a suspension point of symbolic length) or a handler returning an '
@@ -41,4 +41,5 @@ def jobs(tier):
                 for sync in (False, True):
                     out.append(mk('C11', f'errors/{where}/{kind}/sync={sync}', S.errors(kind, where, sync=sync), witnesses=W))
             out.append(mk('C11', f'errors/parent/{kind}/ret_exc', S.errors(kind, 'parent', ret_exc=True), witnesses=W))
+    out += matrix_jobs('C11', 'm1', tier)
     return flat(out)
